@@ -564,3 +564,10 @@ benign("B-unify-in-helper", ["C01", "C17"], (MANIP, "    chunkss, arrays = unify
 
 mutant("M16e-fuse-functions-swapped", ["C02"], "FUSE-PROV-1", (PBW, "        return pipeline2.config.function(pipeline1.config.function(*args))", "        return pipeline1.config.function(pipeline2.config.function(*args))"))
 mutant("M16f-fuse-key-order-swapped", ["C02"], "FUSE-PROV-1", (PBW, "        return pipeline1.config.back_key_function(\n            pipeline2.config.back_key_function(out_key).args[0]\n        )", "        return pipeline2.config.back_key_function(\n            pipeline1.config.back_key_function(out_key).args[0]\n        )"))
+
+# ---------------------------------------------------------------- UNITS-1 (thorough tier)
+mutant("M85a-concat-start-times-numblocks", ["C01"], "UNITS-1", (MANIP, "        start = block_id[axis] * chunksize[axis]\n        stop = start + chunksize[axis]\n        stop = min(stop, shape[axis])\n\n        # produce a key", "        start = block_id[axis] * len(chunks[axis])\n        stop = start + chunksize[axis]\n        stop = min(stop, shape[axis])\n\n        # produce a key"))
+mutant("M85b-flip-clamped-by-numblocks", ["C01"], "UNITS-1", (MANIP, "            stop = min(stop, x.shape[ax])\n\n            # flip start and stop", "            stop = min(stop, x.numblocks[ax])\n\n            # flip start and stop"))
+mutant("M85c-partial-reduce-clamped-by-shape", ["C01", "C15"], "UNITS-1", (OPS, "                    min((bi + 1) * split_every.get(i, 1), x.numblocks[i]),", "                    min((bi + 1) * split_every.get(i, 1), x.shape[i]),"))
+mutant("M85d-arg-offset-block-times-block", ["C01"], "UNITS-1", (OPS, "        size=to_chunksize(x.chunks)[axis],\n    )\n\n    # then reduce across blocks\n    return reduction(\n        out,\n        _arg_func,\n        combine_func=partial(_arg_combine, arg_func=arg_func),\n        aggregate_func=_arg_aggregate,", "        size=x.numblocks[axis],\n    )\n\n    # then reduce across blocks\n    return reduction(\n        out,\n        _arg_func,\n        combine_func=partial(_arg_combine, arg_func=arg_func),\n        aggregate_func=_arg_aggregate,"))
+mutant("M85e-region-offset-without-division", ["C05", "C11", "C01"], "UNITS-1", (OPS, "            (0 if sl.start is None else sl.start // cs)\n", "            (0 if sl.start is None else sl.start)\n"))
